@@ -121,6 +121,22 @@ SptViol(g, trees) ==
                   \E x \in (VerticesOn(g, P[<<u, v>>], u) \cap srcs) : ~(P[<<x, v>>] \subseteq P[<<u, v>>])
               THEN {"subpath-not-chosen-path"} ELSE {}))
 
+\* stars with more than 2^8 / 2^16 vertices (h_comp spt_family): closed form of the unique shortest-path tree.
+\* star a: centre 0, leaves 1..a-1, edge i joins 0 and i; star2 a: a second star on a..2a-1 (centre a), unreachable from the first
+SptFamTreeViol(r, t) ==
+  LET s == t.s
+      w == r.b
+      inFirst(v) == v < r.a
+      expD(v) == IF ~inFirst(v) THEN -1 ELSE IF v = s THEN 0 ELSE IF s = 0 \/ v = 0 THEN w ELSE 2 * w
+      expP(v) == IF ~inFirst(v) \/ v = s THEN 0 ELSE IF v = 0 THEN s ELSE v
+      expF(v) == IF ~inFirst(v) THEN -1 ELSE IF v = s THEN s ELSE IF s = 0 THEN v ELSE 0
+  IN IF Len(t.dist) # r.n \/ Len(t.pred) # r.n \/ Len(t.first) # r.n THEN {"shape"}
+     ELSE (IF \E v \in 0..(r.n - 1) : (t.dist[v + 1] = -1) # (expD(v) = -1) THEN {"node-vs-reachability"} ELSE {})
+     \cup (IF \E v \in 0..(r.n - 1) : t.dist[v + 1] # expD(v) THEN {"distance"} ELSE {})
+     \cup (IF \E v \in 0..(r.n - 1) : t.pred[v + 1] # expP(v) THEN {"pred-not-a-shortest-path-tree"} ELSE {})
+     \cup (IF \E v \in 0..(r.n - 1) : t.first[v + 1] # expF(v) THEN {"first-on-path"} ELSE {})
+SptFamViol(r) == UNION {SptFamTreeViol(r, r.trees[k]) : k \in 1..Len(r.trees)}
+
 \* ---------------- C14 candidate collections ----------------------------------------
 \* c = [trees |-> seq of trees, cands |-> seq of <<root, edge, weight>>]
 CandCycle(g, t, e) == TreePath(g, t, Src(g, e)) \cup TreePath(g, t, Dst(g, e)) \cup {e}
